@@ -43,6 +43,10 @@ uint64_t Endian_swap64(uint64_t data);
 
 /* booleans that were havocked may hold any non-zero byte: compare truth values, not bytes */
 #define TINS_BEQ(a,b) ((!(a)) == (!(b)))
+/* assumption 8 (DESIGN 6): comparing a pointer that was stepped one element outside its array is integer arithmetic
+   on the machine; CBMC's pointer difference is signed, so the comparison is done on the difference within the same object */
+#define TINS_PTR_GE(a, b) ((a) - (b) >= 0)
+#define TINS_PTR_LT(a, b) ((a) - (b) < 0)
 #define TINS_MIN(a,b) ((a) < (b) ? (a) : (b))
 #define TINS_MAX(a,b) ((a) > (b) ? (a) : (b))
 
